@@ -80,7 +80,7 @@ def main():
     na += [{"property_id": p, "reason": r} for p, r in sorted(PENDING.items()) if p not in CHECKS]
     m = {
       "version": 1,
-      "setup_cmd": f"cd /verif && {PY} -c \"import onnx_ir, os, jsonschema, numpy, onnx; assert os.path.realpath(onnx_ir.__file__).startswith('/repo/src')\" && PYTHONHASHSEED=0 timeout 600 {PY} /verif/selftest.py determinism --n 40",
+      "setup_cmd": f"cd /verif && {PY} -c \"import onnx_ir, os, jsonschema, numpy, onnx; assert os.path.realpath(onnx_ir.__file__).startswith('/repo/src')\" && PYTHONHASHSEED=0 timeout 600 {PY} /verif/selftest.py determinism --n 12",
       "hooks": {"guard": "ONNX_IR_PY_VERIF", "enable": "no hooks in /repo: every seam is a module-global name (threading, concurrent, open, os, shutil, tempfile, mmap, onnx, time) rebound by the harness in that module's namespace from its own process; the guard name is reserved but unused",
                 "baseline_off_cmd": "cd /repo && /venv/bin/python -m pytest -ra -q -p no:cacheprovider --timeout=900 --continue-on-collection-errors", "source_commits": [], "add_only": True},
       "engines": [
